@@ -484,3 +484,74 @@ func extCreateTemp(fr *frame, args []value) value {
 }
 
 func init() { externals["os.CreateTemp"] = extCreateTemp }
+
+// (*os.File).ReadAt / WriteAt: positional I/O that leaves the handle's offset alone.
+func extFileReadAt(fr *frame, args []value) value {
+	i := fr.i
+	i.yield()
+	of := i.fileOf(args[0], "ReadAt")
+	buf := args[1].([]value)
+	off := int(asInt64(i, args[2]))
+	if of.closed || !of.rd || of.isDir {
+		return tuple{0, i.mkError("read: bad file descriptor")}
+	}
+	if off < 0 {
+		return tuple{0, i.mkError("readat: negative offset")}
+	}
+	if i.fsFault("read") {
+		return tuple{0, i.mkError("read: input/output error")}
+	}
+	i.path.fs.reads++
+	n := of.node
+	eof := *i.globalAddr(i.prog.ImportedPackage("io").Var("EOF"))
+	if off >= len(n.data) {
+		if len(buf) == 0 {
+			return tuple{0, nilErr()}
+		}
+		return tuple{0, eof}
+	}
+	k := copy(buf, n.data[off:])
+	if k < len(buf) {
+		return tuple{k, eof}
+	}
+	return tuple{k, nilErr()}
+}
+
+func extFileWriteAt(fr *frame, args []value) value {
+	i := fr.i
+	i.yield()
+	fs := i.path.fs
+	of := i.fileOf(args[0], "WriteAt")
+	data := args[1].([]value)
+	off := int(asInt64(i, args[2]))
+	if of.closed || !of.wr || of.isDir {
+		return tuple{0, i.mkError("write: bad file descriptor")}
+	}
+	if of.app {
+		return tuple{0, i.mkError("os: invalid use of WriteAt on file opened with O_APPEND")}
+	}
+	if off < 0 {
+		return tuple{0, i.mkError("writeat: negative offset")}
+	}
+	if i.fsFault("write") {
+		return tuple{0, i.mkError("write: input/output error")}
+	}
+	n := of.node
+	for len(n.data) < off {
+		n.data = append(n.data, byte(0))
+	}
+	nd := append([]value(nil), n.data[:off]...)
+	nd = append(nd, data...)
+	if off+len(data) < len(n.data) {
+		nd = append(nd, n.data[off+len(data):]...)
+	}
+	n.data = nd
+	n.muts++
+	fs.logOp("writeat %s/%s at %d (%d bytes)", n.dir, toString(n.name), off, len(data))
+	return tuple{len(data), nilErr()}
+}
+
+func init() {
+	externals["(*os.File).ReadAt"] = extFileReadAt
+	externals["(*os.File).WriteAt"] = extFileWriteAt
+}
